@@ -22,7 +22,34 @@ def case_strategy(max_steps=40):
     from hypothesis import strategies as st
 
     @st.composite
+    def _kwshape_case(draw):
+        """calls that supply the same NUMBER of arguments through different optional keywords, over methods whose
+        relative specificity differs per keyword: a cache keyed by the count of arguments would confuse them"""
+        h = {"classes": [{"bases": []}, {"bases": [0]}]}
+        a, b = draw(st.sampled_from([(["cls", "int"], ["obj"]), (["cls", "K1"], ["cls", "K0"]), (["cls", "K0"], ["obj"])]))
+
+        def kw(t0, t1):
+            return [{"name": "k0", "ann": t0, "opt": True}, {"name": "k1", "ann": t1, "opt": True}]
+
+        site = {"fn": "recurse", "npos": 1, "kws": [draw(st.sampled_from(["k0", "k1"]))]}
+        methods = [{"id": 0, "prio": 0, "sites": [], "pos": [{"name": "a0", "ann": ["obj"]}], "kw": kw(a, b)},
+                   {"id": 1, "prio": 0, "sites": [], "pos": [{"name": "a0", "ann": ["obj"]}], "kw": kw(b, a)},
+                   {"id": 2, "prio": 0, "sites": [site], "pos": [{"name": "a0", "ann": ["cls", "str"]}], "kw": kw(["obj"], ["obj"])}]
+        if draw(st.booleans()):
+            methods.append({"id": 3, "prio": -1, "sites": [], "pos": [{"name": "a0", "ann": ["obj"]}], "kw": kw(["obj"], ["obj"])})
+        v = ["int", 1] if a == ["cls", "int"] else ["inst", "K1"]
+        x = ["inst", "K0"]
+        pool = [{"args": [x], "kw": {"k0": v}, "script": []}, {"args": [x], "kw": {"k1": v}, "script": []},
+                {"args": [x], "kw": {"k0": v, "k1": v}, "script": []}, {"args": [x], "kw": {}, "script": []},
+                {"args": [["str", "s"]], "kw": {site["kws"][0]: v}, "script": [["site", 0, [x], {site["kws"][0]: v}]]}]
+        ln = draw(st.sampled_from([3, 6, 12]))
+        seq = draw(st.lists(st.integers(0, len(pool) - 1), min_size=ln, max_size=ln))
+        return {"hier": h, "methods": methods, "host": draw(st.sampled_from(["func", "attr", "mc"])), "pool": pool, "seq": seq}
+
+    @st.composite
     def _case(draw):
+        if draw(st.integers(0, 7)) == 0:
+            return draw(_kwshape_case())
         h = draw(H.hierarchies(1, 6))
         knames = H.class_names(h)
         env = H.build(h)
